@@ -90,3 +90,8 @@ CASES += [
       "                if self.data.ndim == 4:\n                    N = self.data.shape[0]\n                    for ii in range(N):\n                        for jj in range(N):\n                            for kk in range(N):\n                                for ll in range(N):\n                                    if not (((ii == jj) and (kk == ll)) \n                                        or ((ii == kk) and (jj == ll))) :\n                                            self.data[ii,jj,kk,ll] = 0",
       "                if self.data.ndim == 4:\n                    N = self.data.shape[0]\n                    dta = self.data\n                    for ii in range(N):\n                        for jj in range(N):\n                            for kk in range(N):\n                                for ll in range(N):\n                                    if not (((ii == jj) and (kk == ll)) \n                                        or ((ii == kk) and (jj == ll))) :\n                                            dta[ii,jj,kk,ll] = 0"),
 ]
+
+CASES += [
+    m("cut-off attribute misspelt again (the repaired defect)", "C01-D", R + "foerstertensor.py",
+      "                cft = self.cutoff_time", "                cft = self.cut_off_time"),
+]
